@@ -406,7 +406,7 @@ defvjp(anp.kron, partial(grad_kron, 0), partial(grad_kron, 1))
 
 def grad_transpose(ans, x, axes=None):
     if axes is not None:
-        axes = anp.argsort(axes)
+        axes = anp.argsort(onp.asarray(axes) % max(anp.ndim(x), 1))
     return lambda g: anp.transpose(g, axes)
 
 
